@@ -102,44 +102,73 @@ def _super_hook(repo, owner, base_hook, env0):
 
 def _finder_bypasses_short_reads(repo):
     """_make_kmer_finder wraps the finder, when both front and back sets are requested, in a class whose
-    kmers_present() answers True for every read shorter than the adapter (decision table over the length comparison)"""
+    kmers_present() answers True for every read that may lie within the adapter: shorter than the adapter, plus - when
+    indels are allowed - the max_errors bases that may be inserted in the read (decision tables over the comparisons).
+    Returns (ok, facts)."""
     _cache = repo.cache
     if "finder-bypass" in _cache:
         return _cache["finder-bypass"]
-    res = False
+    res = (False, {"reason": "no wrapper that bypasses the prefilter for short reads found"})
     c, mk = repo.need_method("SingleAdapter", "_make_kmer_finder")
     ps = params(mk)
     for n in ast.walk(mk):
-        if isinstance(n, ast.If) and {x.id for x in ast.walk(n.test) if isinstance(x, ast.Name)} == {"back_adapter", "front_adapter"} and isinstance(n.test, ast.BoolOp) and isinstance(n.test.op, ast.And):
-            rets = [x.value for x in n.body if isinstance(x, ast.Return)]
-            if len(rets) == 1 and isinstance(rets[0], ast.Call) and chain(rets[0].func) in repo.classes and len(rets[0].args) == 2 and src(rets[0].args[1]) == f"len({ps[1]})":
-                wcls = repo.cls(chain(rets[0].func))
-                init = wcls.methods.get("__init__")
-                kp = wcls.methods.get("kmers_present")
-                if init is None or kp is None:
-                    continue
-                ip = params(init)
-                st = {src(x.value): chain(x.targets[0]) for x in ast.walk(init) if isinstance(x, ast.Assign) and chain(x.targets[0])}
-                la = st.get(ip[2])
-                inner = st.get(ip[1])
-                if not la or not inner:
-                    continue
+        if not (isinstance(n, ast.If) and {x.id for x in ast.walk(n.test) if isinstance(x, ast.Name)} == {"back_adapter", "front_adapter"} and isinstance(n.test, ast.BoolOp) and isinstance(n.test.op, ast.And)):
+            continue
+        wrappers = [x for x in ast.walk(n) if isinstance(x, ast.Call) and chain(x.func) in repo.classes and "kmers_present" in repo.cls(chain(x.func)).methods and len(x.args) == 2]
+        if len(wrappers) != 1:
+            continue
+        wname = chain(wrappers[0].func)
+
+        def hook(ex, node, env):
+            if chain(node.func) == wname:
+                return Obj("WRAPPED:" + vkey(ex.ev(node.args[1], env)), nonnull=True)
+            return None
+
+        rows = explore(repo, n.body, {"self": Obj("self", nonnull=True), ps[1]: Obj("SEQ", nonnull=True), "kmer_finder": Obj("FINDER", nonnull=True)}, call_hook=hook, inline=False)
+        bounds = {}
+        for r in rows:
+            if r.exit[0] == "return" and vkey(r.exit[1]).startswith("WRAPPED:"):
+                bounds[str(r.valuation.get("truthy:self.indels"))] = vkey(r.exit[1])[len("WRAPPED:"):]
+        L = Lin.atom("len(SEQ)")
+        K = Lin.atom("int(" + (Lin.atom("len(SEQ)") * Lin.atom("self.max_error_rate")).key() + ")")
+        facts = {"bypass_bound": bounds}
+        ok_bound = False
+        if set(bounds) == {"None"}:
+            ok_bound = False  # one bound for both cases: must already include the insertions
+            facts["reason"] = "the bound does not depend on self.indels: with insertions a read lying within the adapter can be up to max_errors longer than the adapter"
+            ok_bound = bounds["None"] in ((L + K).key(),)
+        elif set(bounds) == {"True", "False"}:
+            ok_bound = bounds["False"] == L.key() and bounds["True"] == (L + K).key()
+            if not ok_bound:
+                facts["reason"] = "reads up to len(adapter) (+ int(len * max_error_rate) with indels) - 1 must bypass the prefilter"
+        # the wrapper class compares the read length with the bound it was given
+        wcls = repo.cls(wname)
+        init = wcls.methods.get("__init__")
+        kp = wcls.methods.get("kmers_present")
+        ok_cls = False
+        if init is not None and kp is not None:
+            ip = params(init)
+            st = {src(x.value): chain(x.targets[0]) for x in ast.walk(init) if isinstance(x, ast.Assign) and chain(x.targets[0])}
+            la = st.get(ip[2])
+            inner = st.get(ip[1])
+            if la and inner:
                 sp = params(kp)[1]
-                rows = explore(repo, strip_docstring(kp.body), {"self": Obj("self", nonnull=True), sp: Obj("SEQ", nonnull=True)}, inline=False)
-                ok = True
-                for r in rows:
+                krows = explore(repo, strip_docstring(kp.body), {"self": Obj("self", nonnull=True), sp: Obj("SEQ", nonnull=True)}, inline=False)
+                ok_cls = len(krows) >= 2
+                for r in krows:
                     j = Executor(None, r.valuation)
                     try:
                         shorter = j.compare(ast.Lt(), Lin.atom("len(SEQ)"), Lin.atom(la))
                     except NeedAtom:
-                        ok = False
+                        ok_cls = False
                         break
                     ret = vkey(r.exit[1]) if r.exit[0] == "return" else r.exit[0]
                     if shorter and ret != "True":
-                        ok = False
+                        ok_cls = False
                     if not shorter and ret != f"{inner}.kmers_present(SEQ)":
-                        ok = False
-                res = ok and len(rows) >= 2
+                        ok_cls = False
+        facts["wrapper_answers_true_below_its_bound"] = ok_cls
+        res = (bool(ok_bound and ok_cls), facts)
     _cache["finder-bypass"] = res
     return res
 
@@ -335,9 +364,11 @@ def r1_coverage(repo, report):
                     # a read shorter than the adapter may lie completely inside it: no search set describes that
                     c, mt = repo.need_method(cname, "match_to")
                     bypass = any(isinstance(n, ast.Compare) and "len(" in src(n) and ("self.sequence" in src(n) or "len(self)" in src(n)) for n in ast.walk(mt))
-                    bypass = bypass or (front and back and _finder_bypasses_short_reads(repo))
-                    report.ob("C07.R1", f"{tag}: read inside the adapter", bypass, facts={"flags": flags, "bypass_for_short_reads": bypass},
-                              expected="the prefilter is bypassed for reads shorter than the adapter", loc=repo.loc(mt), fact_key="read-inside-adapter",
+                    wfacts = {}
+                    if not bypass and front and back:
+                        bypass, wfacts = _finder_bypasses_short_reads(repo)
+                    report.ob("C07.R1", f"{tag}: read inside the adapter", bypass, facts={"flags": flags, "bypass_for_short_reads": bypass, **wfacts},
+                              expected="the prefilter is bypassed for every read that can lie within the adapter: shorter than len(adapter), plus int(len * max_error_rate) inserted bases when indels are allowed", loc=repo.loc(mt), fact_key="read-inside-adapter",
                               why="" if bypass else "both ends of the adapter may be skipped, so a short read can match in the middle of the adapter; every search set needs a k-mer at a read end or the whole adapter, so such a match is dropped")
 
 
